@@ -187,6 +187,11 @@ def run_case(ctx, case):
                        "terminal": [c for c in range(model.n) if model.down[c] < 0]})
     if nontriv:
         ctx.nontrivial(codes, f, nodata)
+        if ctx.evaluations % 16 == 0:
+            ctx.reuse("accumulate",
+                      lambda: np.asarray(g.accumulate(fd, ta, nprint=10 ** 6,
+                                                      max_accumulated_cells=maxacc).data),
+                      [], np.array(acc.data, copy=True), case)
 
 
 def run(ctx):
